@@ -19,9 +19,22 @@ package main
 //@   assigns nothing
 //@   ensures[C02:hop-spec] r0 <==> hop(name)
 
-//@ func (*proxy).handleAgentRequest props(C07)
+// An agent call is a poll when it names no request id, an upload when it is a POST naming one, and a fetch otherwise;
+// exactly one of the three handlers runs, with the id the agent named (C01, C04).
+//@ func (*proxy).handleAgentRequest props(C01,C04,C07)
 //@   requires p != nil && w != nil && r != nil && r.Header != nil && p.requests != nil && !held(p.Mutex) && p.requestIDs != nil
 //@   assigns heap
+//@   ghost handled int = 0
+//@   call (*proxy).handleAgentListRequests
+//@     assert[C04:call-without-request-id-is-a-poll] handled == 0 && arg0 == p && arg1 == w && arg2 == r && hget(r.Header, "X-Inverting-Proxy-Request-ID") == ""
+//@     do handled = handled + 1
+//@   call (*proxy).handleAgentPostResponse
+//@     assert[C01:post-with-request-id-is-an-upload-for-that-id] handled == 0 && arg0 == p && arg1 == w && arg2 == r && r.Method == "POST" && arg3 == hget(r.Header, "X-Inverting-Proxy-Request-ID") && arg3 != ""
+//@     do handled = handled + 1
+//@   call (*proxy).handleAgentGetRequest
+//@     assert[C01:other-calls-with-request-id-fetch-that-id] handled == 0 && arg0 == p && arg1 == w && arg2 == r && r.Method != "POST" && arg3 == hget(r.Header, "X-Inverting-Proxy-Request-ID") && arg3 != ""
+//@     do handled = handled + 1
+//@   ensures[C01:every-agent-call-is-handled-once] handled == 1
 
 // newID: every request id is derived from exactly one fresh draw of the proxy's own generator (taken under the lock),
 // and from nothing a client controls. (That draws differ from each other is probabilistic and not decided here.)
@@ -46,6 +59,14 @@ package main
 //@   requires !held(p.Mutex) && p.requestIDs != nil && !closed(p.requestIDs)
 //@   ghost enq int = 0
 //@   ghost got ref = nil
+//@   ghost agentCalls int = 0
+//@   ghost commits int = 0
+//@   ghost copies int = 0
+//@   call (*proxy).handleAgentRequest
+//@     assert[C01:calls-carrying-a-backend-id-are-agent-calls] agentCalls == 0 && enq == 0 && arg0 == p && arg1 == w && arg2 == r && arg3 == hget(r.Header, "X-Inverting-Proxy-Backend-ID") && arg3 != ""
+//@     do agentCalls = agentCalls + 1
+//@   ensures[C01:agent-calls-are-handled-and-never-enqueued] old(hget(r.Header, "X-Inverting-Proxy-Backend-ID")) != "" ==> agentCalls == 1 && enq == 0
+//@   ensures[C03:a-received-response-is-relayed-once] got != nil ==> commits == 1 && copies == 1
 //@   loop 1
 //@     assigns mapof(r.Header)
 //@     invariant[C02:filter-dom] forall_str(k, in(k, r.Header) <==> (old(in(k, r.Header)) && !(visited[k] && hop(k))))
@@ -63,8 +84,9 @@ package main
 //@     assume ret0 != nil && ret0.Header != asHeader(rwHeader[w]) && ret0.Trailer != asHeader(rwHeader[w])
 //@     do got = ret0
 //@   call (http.ResponseWriter).WriteHeader
-//@     assert[C01:own-response] arg0 == w && resp == got
+//@     assert[C01:own-response] arg0 == w && resp == got && commits == 0
 //@     assert[C03:status] arg1 == resp.StatusCode
+//@     do commits = commits + 1
 // the reply is committed as chunked: only then does net/http send fields added after the body as trailers (whatever
 // the body length), and only then does it leave a missing Content-Type alone instead of sniffing one
 //@     assert[C03:reply-committed-as-chunked] in("Transfer-Encoding", asHeader(rwHeader[w])) && len(asHeader(rwHeader[w])["Transfer-Encoding"]) >= 1
@@ -72,7 +94,8 @@ package main
 //@     assert[C03:end-to-end-headers-relayed-with-their-values] forall_str(k, in(k, resp.Header) && !hop(k) ==> in(k, asHeader(rwHeader[w])) && asHeader(rwHeader[w])[k] == resp.Header[k])
 //@     assert[C03:nothing-but-end-to-end-headers-added] forall_str(k, in(k, asHeader(rwHeader[w])) && !preOf(2, in(k, asHeader(rwHeader[w]))) ==> (in(k, resp.Header) && !hop(k)) || k == "Transfer-Encoding")
 //@   call io.Copy
-//@     assert[C01:own-body] arg0 == w && arg1 == resp.Body && resp == got
+//@     assert[C01:own-body] arg0 == w && arg1 == resp.Body && resp == got && commits == 1 && copies == 0
+//@     do copies = copies + 1
 //@   call (http.Header).Add
 //@     assert[C03:only-chunking-and-trailers-are-added] arg0 == asHeader(rwHeader[w]) && (inloop == 0 || inloop == 4)
 //@     |   && (inloop == 0 ==> arg1 == "transfer-encoding" && arg2 == "chunked")
@@ -115,8 +138,19 @@ package main
 //@ func (*proxy).handleAgentGetRequest props(C01,C02,C07)
 //@   requires p != nil && w != nil && r != nil && p.requests != nil && !held(p.Mutex)
 //@   assigns mapof(p.requests), mapof(rwHeaderOf(w)), ghost rwStatus[w], ghost rwWrites[w]
+//@   ghost writes int = 0
+//@   ghost commits int = 0
+//@   call (http.ResponseWriter).WriteHeader
+//@     assert[C01:fetch-reply-carries-the-start-time-the-agent-needs] arg0 == w && commits == 0 && arg1 == 200 && pending != nil && in("X-Inverting-Proxy-Request-Start-Time", rwHeaderOf(w))
+//@     do commits = commits + 1
 //@   call (*http.Request).Write
-//@     assert[C01:serve-own-request] pending != nil && pending == p.requests[requestID] && arg0 == pending.req && arg1 == w
+//@     assert[C01:serve-own-request] pending != nil && pending == p.requests[requestID] && arg0 == pending.req && arg1 == w && commits == 1 && writes == 0
+//@     do writes = writes + 1
+//@   ghost notFounds int = 0
+//@   call http.NotFound
+//@     assert[C01:unknown-request-id-is-404] arg0 == w && writes == 0 && commits == 0 && notFounds == 0
+//@     do notFounds = notFounds + 1
+//@   ensures[C02:a-known-request-is-serialised-to-the-agent-once] writes + notFounds == 1
 
 // Hand-off of request ids to pollers (C04): the reply holds exactly the ids received from the channel, in order.
 //@ func (*proxy).waitForRequestIDs props(C04,C07)
@@ -150,3 +184,8 @@ package main
 //@   call (http.ResponseWriter).Write
 //@     assert[C04:reply-body-is-that-serialisation] arg0 == w && arg1 == js && bodies == 0 && waited == 1
 //@     do bodies = bodies + 1
+//@   ghost errs int = 0
+//@   call http.Error
+//@     assert[C04:serialisation-failure-is-a-500] arg0 == w && arg2 == 500 && bodies == 0 && errs == 0
+//@     do errs = errs + 1
+//@   ensures[C04:every-poll-is-answered-with-its-ids-or-an-error] bodies + errs == 1
